@@ -1,7 +1,9 @@
 mod asm6502;
+mod bait;
 mod cgen;
 mod cmodel;
 mod common;
+mod corpus;
 mod driver;
 mod emu6502;
 mod exec;
@@ -9,6 +11,9 @@ mod framework;
 mod layout;
 mod matrix;
 mod mon_c01;
+mod mon_c02;
+mod mon_c03;
+mod mon_struct;
 mod pins;
 mod reduce;
 mod util;
@@ -20,6 +25,10 @@ use std::io::Write;
 fn monitor(id: &str) -> Option<Box<dyn Monitor>> {
     match id {
         "C01" => Some(Box::new(mon_c01::C01)),
+        "C02" => Some(Box::new(mon_c02::C02)),
+        "C03" => Some(Box::new(mon_c03::C03)),
+        "C04" => Some(Box::new(mon_struct::C04)),
+        "C13" => Some(Box::new(mon_struct::C13)),
         _ => None,
     }
 }
@@ -71,6 +80,9 @@ fn main() {
             for (c, n) in &ro.agg.counters {
                 println!("  counter {:40} {}", c, n);
             }
+            if let Some(c) = ro.agg.sets.get("crashed cases") {
+                println!("crashed cases: {:?}", c.iter().take(10).collect::<Vec<_>>());
+            }
             println!("violations: {}", ro.agg.violations.len());
             for v in ro.agg.violations.iter().take(show) {
                 println!("=========== {}\n{}\n{}", v.signature, v.summary, v.replay["listing"].as_str().unwrap_or(""));
@@ -102,6 +114,16 @@ fn main() {
             let r = mon_c01::judge_program("C01", "rand", idx, &q, &tag, &[lv], None);
             let v = &r.violations[0];
             let _ = writeln!(out, "// ===== {} {}\n{}// input: {}\n// expected: {}\n// observed: {}\n{}", tag, idx, cmodel::print_program(&q), v.replay["input"], v.replay["expected"], v.replay["observed"], v.replay["listing"].as_str().unwrap_or("").lines().map(|l| format!("//   {}", l)).collect::<Vec<_>>().join("\n"));
+        }
+        "one" => {
+            // development: vmon one <ID> <kind> <idx> : run one case in this process, print everything
+            let mon = monitor(&args[2]).expect("unknown property");
+            let idx: u64 = args[4].parse().unwrap();
+            let r = mon.run_case(&args[3], idx);
+            println!("class: {}\nnontrivial: {}\ncounters: {:?}", r.class, r.nontrivial, r.counters);
+            for v in &r.violations {
+                println!("VIOLATION {}\n{}\n{}", v.signature, v.summary, serde_json::to_string_pretty(&v.replay).unwrap());
+            }
         }
         "gen" => {
             // vmon gen <tag> <idx> : print a generated program
